@@ -374,3 +374,69 @@ def entry_z(rep, ex: Explorer, cls: str, strict=True, extended=True):
         ok2, w2 = F.guard_implies(want, got)
         rep.check(ok2, "EXT.vacuity", site, "vacuous True is complete", "a query whose falsification has no feasible model is answered True",
                   extracted=F.show_guard(got) + (f" misses {w2}" if w2 else ""), required="⊇ " + F.show_guard(want), function=site)
+        ext_terminal_answers(rep, site, paths)
+
+
+def ext_terminal_answers(rep, site, paths, mcs_items=None):
+    """EXT.only-infinity: an extended answer given without the layer recursion is either the vacuous True (checked by
+    EXT.vacuity) or the answer for a partition that consists of the infinity layer alone: False when A∧¬B has a
+    feasible model (all feasible worlds are equally plausible), True otherwise."""
+    inf_leaf = ("opaque", "INF")
+    inf_c = canon_item(INF_ITEM)
+    n = 0
+    for p in paths:
+        if decided(p, ("truthy", "weakly")) is not True or p.outcome[0] != "return":
+            continue
+        if any(ev.kind == "reccall" for ev, Q in iter_events(p.events)):
+            continue
+        rv = p.outcome[1]
+        if isinstance(rv, Const) and rv.value is True:
+            continue
+        ns = [k for k in range(1, 6) if lin_facts_hold(p, k)]
+        n += 1
+        only_inf = ns == [1]
+        rep.check(only_inf, "EXT.only-infinity", site, "answer without recursion", "an extended answer other than the vacuous True is given without the layer recursion only when the partition is the infinity layer alone",
+                  extracted=f"possible len(P): {ns}", required="len(P)=1", function=site)
+        if not only_inf:
+            continue
+        if isinstance(rv, Const) and rv.value is False:
+            # falsification must be known feasible on this path
+            lits = []
+            qm = {ev.qid: ev for ev, Q in iter_events(p.events) if ev.kind == "query" and not Q}
+            for key, val in p.decisions:
+                if key[0] in ("sat", "check") and key[1] in qm:
+                    items = flat(qm[key[1]].frames)
+                    rest = [it for it in items if canon_item(it) != inf_c]
+                    if len(rest) == len(items) or any(it[0] != "f" for it in rest):
+                        continue
+                    f = ("and", tuple([it[1] for it in rest] + [inf_leaf]))
+                    if key[0] == "sat":
+                        lits.append(("sat", f) if val else ("not", ("sat", f)))
+                    elif val == "sat":
+                        lits.append(("sat", f))
+                    elif val == "unsat":
+                        lits.append(("not", ("sat", f)))
+            g = ("and", tuple(lits))
+            want = ("sat", ("and", (falsification(QUERY), inf_leaf)))
+            ok, w = F.guard_implies(g, want)
+            # with three-valued checks an `unknown` leaves the test open; the answer False is then only as good as
+            # the check (CHECK.three-way governs that), so require implication only when all tests were two-valued
+            three = any(k[0] == "check" and v == "unknown" for k, v in p.decisions)
+            rep.check(ok or three, "EXT.only-infinity", site, "False with only the infinity layer", "False only when A∧¬B has a feasible model",
+                      extracted=F.show_guard(g) + (f" holds on {w}" if w else ""), required="⊆ " + F.show_guard(want), function=site)
+        elif isinstance(rv, PredV):
+            pr = rv.p
+            ok = False
+            det = show_pred(pr)
+            if pr[0] == "empty" and isinstance(pr[1], tuple) and pr[1][:1] == ("mcs",) and mcs_items is not None:
+                for ev, Q in iter_events(p.events):
+                    if ev.kind == "mcs" and ("mcs", ev.cid) == pr[1]:
+                        hard, soft = mcs_items(ev)
+                        want = [INF_ITEM, ("f", falsification(QUERY))]
+                        ok = canon_items(hard) == canon_items(want)
+                        det = f"True iff no correction set under {show_items(hard)}"
+            rep.check(ok, "EXT.only-infinity", site, "answer with only the infinity layer", "True exactly when infinity layer ∧ A∧¬B is unsatisfiable",
+                      extracted=det, required="UNSAT(INF ∧ A∧¬B)", function=site)
+        else:
+            rep.violation("EXT.only-infinity", site, "answer with only the infinity layer", "not a Boolean decided by feasibility of A∧¬B", extracted=repr(rv), required="Boolean", function=site)
+    return n
